@@ -67,6 +67,9 @@ CLAIMS["C19"] = ("exhaustive program enumeration with a paired-program different
 CLAIMS["C01"] = ("stateless model checking of the real code: exhaustive enumeration of layer stacks x outcome scripts, delay-bounded schedule enumeration on the shallow stacks, sequential reference evaluator",
     "Every stack over the 7 layer types of depth 1 (d<=2), depth 2 (d<=1 with two submitter threads, d=0 otherwise) and depth 3 (d=0) - thorough adds depth 4, 5 and 6 (117 649 stacks) at d=0 - over the real SyncExecutor and the real thread pool, two submissions with tagged arguments and per-invocation outcome scripts (success, retryable failures, non-retryable failure, exhaustion), one faulty or one recovering user function per position; each run is compared with a recursive reference evaluator: value / the very exception object raised, invocation count, arguments, exactly one done notification.",
     "DESIGN.md section 6 C01")
+CLAIMS["C12"] = ("stateless model checking of the real code: delay-bounded placement of shutdown / last-reference drop / exit hook over the worker loop's iteration; weak-reference liveness after an explicit gc step",
+    "For the retry / poll / throttle / timeout executors: shutdown(wait or not), dropping the last user reference (idle, while the worker is iterating, after a completed future, with a future still pending) and the library's exit hook are placed by the scheduler at every point of the worker loop (d<=3 sync-op granularity, d<=2 line granularity): the worker thread must have exited by the horizon and a pending future must still complete after the drop. Retention: for 10 executor / combinator kinds and the histories completed / failed / retried / cancelled while queued / cancelled in the delegate / timed out, weak references to the future, the callable, its arguments and its result must be dead after quiescence + gc.collect() while the executor lives.",
+    "DESIGN.md section 6 C12; 'interpreter exit' = the library's registered exit hook invoked as a scheduled step (real interpreter finalisation cannot be scheduled)")
 NOT_YET = {}
 
 props = [json.loads(l) for l in open(os.path.join(HERE, "properties.jsonl"))]
